@@ -234,6 +234,12 @@ fn add_stdio(rep: &mut harness::report::Report, prop: &str, tier: &str, fault_de
         let cfg = harness::vol::tiny_with(ft, 24, 16);
         // (FAT32: one level less for the fault enumeration - every allocation there issues far more device calls)
         let fd = if ft == fatfs::FatType::Fat32 { fault_depth.saturating_sub(1) } else { fault_depth };
+        // mounting through the facade under fault (StdIoWrapper::read_exact is only used on the raw storage)
+        if fault_depth > 0 {
+            for (sig, msg) in stdio::mount_faults(&cfg) {
+                rep.add(common::violation(prop, &format!("{prop}/{sig}"), &msg, &format!("{}-std-io", cfg.name)), serde_json::json!({"check": prop, "std-io": msg}));
+            }
+        }
         let s = stdio::explore(&cfg, if th { 4 } else { 3 }, fd, &|sig| keep.iter().any(|k| sig.starts_with(k)));
         hist += s.histories;
         faults += s.fault_runs;
